@@ -28,7 +28,7 @@ type vReadRes struct {
 
 // vRefParse is the reference parser: it applies ops to the concatenated stream and returns the
 // results that are complete within stream[:avail]; consumed is the offset after the last complete
-// result. It encodes only what the statement says: lines end at LF; the junk-tolerant read joins
+// result. It encodes only what the statement says: protocol lines end at LF (an empty line is none); the junk-tolerant read joins
 // lines whose LF is preceded by CR (dropping the CR LF); a sized read takes exactly n bytes; a
 // Ctrl-C inside a line interrupts.
 func vRefParse(stream []byte, ops []vReadOp, avail int) (res []vReadRes, consumed int) {
@@ -64,6 +64,12 @@ func vRefParse(stream []byte, ops []vReadOp, avail int) (res []vReadRes, consume
 				p += nl + 1
 				if op.kind == "junk" && len(acc) > 0 && acc[len(acc)-1] == '\r' {
 					acc = acc[:len(acc)-1]
+					continue
+				}
+				if len(acc) == 0 {
+					// an empty line is not a protocol line (every protocol line begins with its marker): it is
+					// passed over, like the line feed of a trigger line that arrives in a read of its own
+					pos = p
 					continue
 				}
 				break
